@@ -205,34 +205,40 @@ Proof.
     exact Hother.
 Qed.
 
+Lemma after_verify_inv cont fhc h c k delta vd s0 :
+  cur s0 = Some c -> opn s0 = [c] -> ntasks s0 = 1 -> wait_ok s0 -> fuel_out s0 = false -> closing s0 = false ->
+  incl (excl s0) (hosts s0) -> secure s0 = false -> length (excl s0) <= fhc -> In h (hosts s0) ->
+  ContOk cont (hosts s0) (desc s0) (excl s0) h ->
+  Inv (if (vd =? 0)%N then verify_done cont fhc h c (Some (k, delta)) s0
+       else if (vd <? THIRTY_S)%N then set_ph (PVerify c h fhc (Some (k, delta)) (now s0 + vd)) s0
+       else set_ph (PVerify c h fhc None (now s0 + THIRTY_S))
+                   (if (vd =? THIRTY_S)%N then set_tie true s0 else s0)).
+Proof.
+  intros Hc Ho Ht Hw Hf Hcl Hex Hsec Hfhc Hin Hcont. destruct (vd =? 0)%N.
+  - now apply verify_done_inv.
+  - destruct (N.ltb_spec vd THIRTY_S).
+    + inv_tac.
+      * rewrite Ho, Hc. reflexivity.
+      * right. assert (c0 = c) by congruence. subst. eauto.
+      * match goal with H : PVerify _ _ _ _ _ = PVerify _ _ _ _ _ |- _ => injection H as <- <- <- <- <- end.
+        repeat split; auto. lia.
+      * match goal with H : Some _ = Some _ |- _ => injection H as <- end. lia.
+    + destruct (vd =? THIRTY_S)%N; inv_tac.
+      all: try (rewrite Ho, Hc; reflexivity).
+      all: try (right; assert (c0 = c) by congruence; subst; eauto; fail).
+      all: try (match goal with H : PVerify _ _ _ _ _ = PVerify _ _ _ _ _ |- _ => injection H as <- <- <- <- <- end;
+                repeat split; auto; lia).
+      all: try (match goal with H : Some _ = Some _ |- _ => injection H as <- end; lia).
+Qed.
+
 Lemma after_connect_inv cont fhc h s :
   Ctl s -> secure s = false -> length (excl s) <= fhc -> In h (hosts s) ->
   ContOk cont (hosts s) (desc s) (excl s) h -> Inv (after_connect cont fhc h s).
 Proof.
-  intros [Ho Hc Ht Hw Hf Hcl Hex] Hsec Hfhc Hin Hcont. unfold after_connect, pop_verif. ss.
-  assert (Hgen : forall k delta vd vs,
-    Inv (let s0 := emit (EvVerify (nextcid s) k) (set_verifs vs (emit (EvOpened (nextcid s) h)
-                     (set_cur (Some (nextcid s)) (set_opn (opn s ++ [nextcid s]) (set_nextcid (S (nextcid s)) s))))) in
-         if (vd =? 0)%N then verify_done cont fhc h (nextcid s) (Some (k, delta)) s0
-         else if (vd <? THIRTY_S)%N then set_ph (PVerify (nextcid s) h fhc (Some (k, delta)) (now s0 + vd)) s0
-         else set_ph (PVerify (nextcid s) h fhc None (now s0 + THIRTY_S))
-                     (if (vd =? THIRTY_S)%N then set_tie true s0 else s0))).
-  { intros k delta vd vs. cbv zeta. destruct (vd =? 0)%N.
-    - apply verify_done_inv; ss; auto. rewrite Ho. reflexivity.
-    - destruct (N.ltb_spec vd THIRTY_S).
-      + rewrite Ho. inv_tac.
-        * right. match goal with H : Some _ = Some _ |- _ => injection H as <- end. eauto.
-        * match goal with H : PVerify _ _ _ _ _ = PVerify _ _ _ _ _ |- _ => injection H as <- <- <- <- <- end.
-          repeat split; auto. lia.
-        * match goal with H : Some _ = Some _ |- _ => injection H as <- end. lia.
-      + rewrite Ho. destruct (vd =? THIRTY_S)%N; inv_tac.
-        all: try (right; match goal with H : Some _ = Some _ |- _ => injection H as <- end; eauto; fail).
-        all: try (match goal with H : PVerify _ _ _ _ _ = PVerify _ _ _ _ _ |- _ => injection H as <- <- <- <- <- end;
-                  repeat split; auto; lia).
-        all: try (match goal with H : Some _ = Some _ |- _ => injection H as <- end; lia). }
-  destruct (verifs s) as [|[[k delta] vd] vr] eqn:Ev.
-  - change (0 =? 0)%N with true. cbv iota. apply verify_done_inv; ss; auto. rewrite Ho. reflexivity.
-  - exact (Hgen k delta vd vr).
+  intros [Ho Hc Ht Hw Hf Hcl Hex] Hsec Hfhc Hin Hcont. unfold after_connect, pop_verif.
+  destruct (verifs _) as [|[[k delta] vd] vr] eqn:Ev.
+  - apply after_verify_inv; ss; auto. rewrite Ho. reflexivity.
+  - apply after_verify_inv; ss; auto. rewrite Ho. reflexivity.
 Qed.
 
 Lemma rounds_inv cont fhc : forall cands s,
@@ -541,7 +547,7 @@ Qed.
 Lemma apply_control_inv c s : Inv s -> Inv (apply_control c s).
 Proof.
   intros H. unfold apply_control. pose proof (emit_inv (EvControl c) s H) as He.
-  destruct c as [w|w|hs| |c|c| |].
+  destruct c as [w|w|hs| |c|c| | |v].
   - destruct (shut (emit (EvControl (Ensure w)) s) || connected (emit (EvControl (Ensure w)) s)) eqn:E.
     + now apply emit_inv.
     + apply orb_false_iff in E. destruct E as [_ E].
@@ -558,6 +564,9 @@ Proof.
     now apply drop_inv.
   - apply emit_inv. now apply do_close_inv.
   - apply emit_inv. apply do_close_inv. now apply set_shut_inv.
+  - destruct (connected _ && negb (running _)); [|exact He].
+    destruct (cur (emit (EvControl (BadReply v)) s)) as [c|] eqn:Ec; [|exact He].
+    now apply lose_current_inv.
 Qed.
 
 (* ---------- timers ---------- *)
@@ -833,19 +842,33 @@ Proof.
   split; [now apply emit_inv|]. ss. split; [exact H2|]. split; [exact H3|reflexivity].
 Qed.
 
+Lemma running_emit e s : running (emit e s) = running s.
+Proof. reflexivity. Qed.
+
+Lemma shut_drop_transport s : shut (drop_transport s) = shut s.
+Proof. unfold drop_transport. destruct (cur s); [|reflexivity]. destruct (mem_nat _ _); reflexivity. Qed.
+
+Lemma shut_finish p s : shut (finish p s) = shut s.
+Proof. unfold finish. destruct p; reflexivity. Qed.
+
+Lemma shut_do_close s : shut (do_close s) = shut s.
+Proof.
+  unfold do_close. cbn [shut set_secure]. rewrite shut_drop_transport. unfold stop_connector.
+  destruct (running _); [|reflexivity]. rewrite shut_finish, shut_drop_transport.
+  destruct (ph _); try reflexivity. destruct (mem_nat _ _); reflexivity.
+Qed.
+
 Lemma shutdown_total s : Inv s ->
   let s' := apply_control Shutdown s in
   Inv s' /\ opn s' = [] /\ closing s' = true /\ shut s' = true /\ running s' = false.
 Proof.
   intros H. cbv zeta. unfold apply_control.
-  destruct (do_close_inv (set_shut true (emit (EvControl Shutdown) s)) (set_shut_inv _ _ (emit_inv _ _ H))) as [H1 [H2 H3]].
-  split; [now apply emit_inv|]. ss. split; [exact H2|]. split; [exact H3|].
-  assert (Hsh : shut (do_close (set_shut true (emit (EvControl Shutdown) s))) = true).
-  { unfold do_close, stop_connector, drop_transport, finish, resolve_waiters.
-    destruct (running _); ss; repeat (match goal with |- context [match ?x with _ => _ end] => destruct x end; ss); reflexivity. }
-  split; [exact Hsh|].
-  unfold running. ss. fold (running (do_close (set_shut true (emit (EvControl Shutdown) s)))).
-  destruct (running (do_close (set_shut true (emit (EvControl Shutdown) s)))) eqn:Er; [|reflexivity].
+  set (s0 := set_shut true (emit (EvControl Shutdown) s)).
+  destruct (do_close_inv s0 (set_shut_inv _ _ (emit_inv _ _ H))) as [H1 [H2 H3]].
+  split; [now apply emit_inv|]. split; [exact H2|]. split; [exact H3|].
+  split; [change (shut (do_close s0) = true); rewrite shut_do_close; reflexivity|].
+  rewrite running_emit.
+  destruct (running (do_close s0)) eqn:Er; [|reflexivity].
   dinv H1. specialize (Ir Er). congruence.
 Qed.
 
@@ -893,7 +916,7 @@ Lemma quiet_control c s : Quiet s -> pairing_level c = true ->
   Quiet (apply_control c s) /\ count_dials (trace (apply_control c s)) = count_dials (trace s).
 Proof.
   intros (Hs & Hc & Hr & Hw & Ho & Hcu) Hp. unfold running in Hr.
-  destruct c as [w|w|hs| |c|c| |]; try discriminate; unfold apply_control; ss.
+  destruct c as [w|w|hs| |c|c| | |v]; try discriminate; unfold apply_control; ss.
   - rewrite Hs. cbn [orb]. unfold Quiet, running. ss. repeat split; auto.
   - rewrite Hw. cbn [has_waiter existsb]. unfold Quiet, running. ss. repeat split; auto.
   - rewrite Hs. unfold Quiet, running. ss. repeat split; auto.
@@ -901,6 +924,7 @@ Proof.
   - rewrite Ho. cbn [mem_nat]. unfold Quiet, running. ss. repeat split; auto.
   - rewrite idle_do_close by (unfold running; ss; auto). unfold Quiet, running. ss. repeat split; auto.
   - rewrite idle_do_close by (unfold running; ss; auto). unfold Quiet, running. ss. repeat split; auto.
+  - unfold connected. ss. rewrite Hcu. cbn [andb]. unfold Quiet, running. ss. repeat split; auto.
 Qed.
 
 Lemma quiet_step tc s : Quiet s -> pairing_level (snd tc) = true ->
